@@ -69,6 +69,16 @@ CLAIMS.update({
              "each atom overwrites ignore_case/normalize so the result is independent of the matcher's previous flags; match_list is a permutation of the matching inputs in "
              "non-increasing score order with equal scores kept in input order. Tied to the code by correspondence on random patterns sharing one Matcher.",
         note="Trusted: Lean kernel, axioms propext/Classical.choice/Quot.sound, harness+driver; the matcher calls are those of C01-C05 (same model). MultiPattern::score (columns) is the same fold (src/pattern.rs) and is exercised through the nucleo-level checks."),
+    "C08": dict(
+        technique="Lean 4 inductive invariant over all interleavings of a small-step model at atomic-operation granularity + replay of real seeded schedules on the model",
+        text="Theorems over every number of threads, every program of push/extend(honest or lying)/get/count/snapshot and every schedule (list of thread ids, one atomic "
+             "operation per step): fetch_add hands out exactly the next index/contiguous block, no index is owned by two threads, published entries lie below the counter and are "
+             "never owned again (Inv, preserved by every step, holds in every reachable state); a published entry is never overwritten (slot_stable); after a push's last step "
+             "every later lookup finds exactly its value (read_your_writes); nothing is ever returned for an index that was not assigned; counter and bucket publication are "
+             "monotone; Location::of arithmetic (entry in bounds, buckets tile the index space, injective, below 27 buckets). Tie: real threads are run under a seeded scheduler "
+             "at the cfg-gated yield points and the model must predict each executed site and each result.",
+        note="Trusted: Lean kernel, axioms propext/Classical.choice/Quot.sound, translator (SKIP/BUCKETS constants, Location arithmetic shape), harness scheduler + driver. "
+             "Sequential consistency at yield-point granularity is assumed here (memory-order reorderings: C09). Matcher-column contents are compared by the harness itself."),
     "C17": dict(
         technique="Lean 4 theorems about the conversion model + correspondence on grapheme-rich strings (segmentation as input)",
         text="Theorems: the ASCII form is chosen iff the string is ASCII without CR LF; its bytes are the string; otherwise one character per cluster (first code point, LF for CR LF); "
